@@ -4,6 +4,7 @@ mod mc;
 mod props;
 mod refmodel;
 mod sut;
+mod wire;
 
 use mc::{Options, Tier};
 
